@@ -163,4 +163,140 @@ theorem surveyStep_scale (k : Int) (hk : 0 < k) (R S T P : Int) (st w : Bool) :
         Int.mul_zero]
       congr 1 <;> ring
 
+/-! ### the whole day is homogeneous too -/
+
+def scaleReport (k : Int) (r : Report) : Report :=
+  { r with surveyed := k * r.surveyed, today := k * r.today, travel := k * r.travel }
+def scaleReq (k : Int) (r : Req) : Req := { r with S := k * r.S, T := k * r.T, rep := scaleReport k r.rep }
+def scaleCrew (k : Int) (c : CrewSt) : CrewSt := { c with rem := k * c.rem, spent := k * c.spent, home := k * c.home }
+def scaleStats (k : Int) (s : Stats) : Stats :=
+  { s with travel := k * s.travel, survey := k * s.survey, wpTravel := k * s.wpTravel }
+def scaleRec (k : Int) (o : OutRec) : OutRec :=
+  { req := scaleReq k o.req, rep := scaleReport k o.rep, crew := o.crew, step := o.step.map (scaleOut k),
+    rBefore := k * o.rBefore }
+def scaleDay (k : Int) (d : DaySt) : DaySt :=
+  { crews := d.crews.map (scaleCrew k), stats := scaleStats k d.stats, out := d.out.map (scaleRec k) }
+
+theorem applyStep_scale (k : Int) (rep : Report) (o : StepOut) :
+    applyStep (scaleReport k rep) (scaleOut k o) = scaleReport k (applyStep rep o) := by
+  unfold applyStep scaleReport scaleOut
+  cases o.branch <;> simp <;> ring
+
+theorem better_scale (k : Int) (hk : 0 < k) (a b : CrewSt) :
+    better (scaleCrew k a) (scaleCrew k b) = better a b := by
+  have hlt : k * b.rem < k * a.rem ↔ b.rem < a.rem :=
+    ⟨fun h => lt_of_mul_lt_mul_left h hk.le, fun h => Int.mul_lt_mul_of_pos_left h hk⟩
+  have heq : k * a.rem = k * b.rem ↔ a.rem = b.rem :=
+    ⟨fun h => Int.eq_of_mul_eq_mul_left (ne_of_gt hk) h, fun h => by rw [h]⟩
+  unfold better scaleCrew
+  simp only [gt_iff_lt]
+  rw [decide_eq_decide.2 hlt, decide_eq_decide.2 heq]
+
+theorem pick_scale (k : Int) (hk : 0 < k) (cs : List CrewSt) :
+    pick (cs.map (scaleCrew k)) = (pick cs).map (scaleCrew k) := by
+  induction cs with
+  | nil => rfl
+  | cons c cs ih =>
+    simp only [List.map_cons, pick, ih]
+    cases hp : pick cs with
+    | none => simp only [Option.map_none]; cases hq : c.queued <;> simp [scaleCrew, hq]
+    | some d =>
+      simp only [Option.map_some]
+      rw [better_scale k hk c d]
+      have : (scaleCrew k c).queued = c.queued := rfl
+      rw [this]
+      cases (c.queued && better c d) <;> simp
+
+theorem workable_scale (k : Int) (p : MethodP) (r : Req) : workable p (scaleReq k r) = workable p r := rfl
+
+theorem charge_scale (k : Int) (p : MethodP) (r : Req) (rep : Report) :
+    chargeIfComplete p (scaleReq k r) (scaleReport k rep) = chargeIfComplete p r rep := rfl
+
+theorem crewAfter_scale (k : Int) (hk : 0 < k) (c : CrewSt) (o : StepOut) :
+    crewAfter (scaleCrew k c) (scaleOut k o) = scaleCrew k (crewAfter c o) := by
+  have hpos : ∀ x : Int, (0 < k * x) ↔ 0 < x := fun x =>
+    ⟨fun h => by
+        have h0 : k * 0 < k * x := by simpa using h
+        exact lt_of_mul_lt_mul_left h0 hk.le,
+     fun h => Int.mul_pos hk h⟩
+  unfold crewAfter scaleCrew scaleOut
+  cases hl : o.last <;> cases hb : o.branch <;> simp [hpos] <;> ring
+
+theorem replaceCrew_scale (k : Int) (c' : CrewSt) (cs : List CrewSt) :
+    replaceCrew (scaleCrew k c') (cs.map (scaleCrew k)) = (replaceCrew c' cs).map (scaleCrew k) := by
+  unfold replaceCrew
+  simp only [List.map_map]
+  apply List.map_congr_left
+  intro c _
+  simp only [Function.comp]
+  have : (scaleCrew k c).id = c.id := rfl
+  have h2 : (scaleCrew k c').id = c'.id := rfl
+  rw [this, h2]
+  split <;> rfl
+
+theorem serve_scale (k : Int) (hk : 0 < k) (p : MethodP) (st : DaySt) (r : Req) :
+    serve p (scaleDay k st) (scaleReq k r) = scaleDay k (serve p st r) := by
+  unfold serve
+  simp only [scaleDay, pick_scale k hk]
+  cases hp : pick st.crews with
+  | none =>
+    simp only [Option.map_none, List.map_append, List.map_cons, List.map_nil]
+    simp [scaleStats, scaleRec]
+    exact ⟨rfl, rfl⟩
+  | some c =>
+    simp only [Option.map_some]
+    have hc : (scaleCrew k c).rem = k * c.rem := rfl
+    have hr : (scaleReq k r).rep.surveyed = k * r.rep.surveyed := rfl
+    have hS : (scaleReq k r).S = k * r.S := rfl
+    have hT : (scaleReq k r).T = k * r.T := rfl
+    rw [hc, hr, hS, hT, workable_scale, surveyStep_scale k hk]
+    have hrep : (scaleReq k r).rep = scaleReport k r.rep := rfl
+    rw [hrep, applyStep_scale, crewAfter_scale k hk, replaceCrew_scale]
+    generalize surveyStep c.rem r.S r.T r.rep.surveyed p.stationary (workable p r) = o
+    simp only [List.map_append, List.map_cons, List.map_nil]
+    have e1 : (scaleOut k o).visited = o.visited := rfl
+    have e2 : (scaleOut k o).last = o.last := rfl
+    have e3 : (scaleOut k o).travel = k * o.travel := rfl
+    have e4 : (scaleReport k (applyStep r.rep o)).surveyed = k * (applyStep r.rep o).surveyed := rfl
+    rw [e1, e2, e3, e4, charge_scale]
+    congr 1
+    · cases o.visited <;> cases o.last <;> simp [scaleStats] <;> (try (and_intros <;> ring))
+
+theorem serveAll_scale (k : Int) (hk : 0 < k) (p : MethodP) (reqs : List Req) (st : DaySt) :
+    serveAll p (scaleDay k st) (reqs.map (scaleReq k)) = scaleDay k (serveAll p st reqs) := by
+  induction reqs generalizing st with
+  | nil => rfl
+  | cons r rs ih =>
+    simp only [serveAll, List.map_cons, List.foldl_cons] at ih ⊢
+    rw [serve_scale k hk, ih]
+
+theorem countDeployed_scale (k : Int) (cs : List CrewSt) :
+    countDeployed (cs.map (scaleCrew k)) = countDeployed cs := by
+  unfold countDeployed
+  induction cs with
+  | nil => rfl
+  | cons c cs ih =>
+    have : (scaleCrew k c).deployed = c.deployed := rfl
+    simp only [List.map_cons, List.filter_cons, this]
+    cases c.deployed <;> simp [ih]
+
+theorem finalize_scale (k : Int) (p : MethodP) (n : Nat) (st : DaySt) :
+    finalize p n (scaleDay k st) = scaleDay k (finalize p n st) := by
+  unfold finalize
+  cases p.perSite <;> cases p.stationary <;> simp [scaleDay, scaleStats, countDeployed_scale]
+
+theorem initCrews_scale (k budget : Int) (n : Nat) :
+    initCrews (k * budget) n = (initCrews budget n).map (scaleCrew k) := by
+  simp [initCrews, scaleCrew, Function.comp_def]
+
+/-- **the crew day is homogeneous in the unit of time**: multiplying the budget and every survey /
+travel / already-surveyed time of the plan by `k > 0` multiplies every time output by `k` and changes
+no decision (who is sent where, what completes, what is charged) -/
+theorem deployDay_scale (k : Int) (hk : 0 < k) (p : MethodP) (budget : Int) (n : Nat) (reqs : List Req) :
+    deployDay p (k * budget) n (reqs.map (scaleReq k)) = scaleDay k (deployDay p budget n reqs) := by
+  unfold deployDay
+  have h0 : ({ crews := initCrews (k * budget) n } : DaySt) = scaleDay k { crews := initCrews budget n } := by
+    simp [scaleDay, initCrews_scale, scaleStats]
+  rw [h0, serveAll_scale k hk, List.length_map, finalize_scale]
+
 end LdarModel.Crew
